@@ -124,8 +124,9 @@ def devSet (s : Sys) (values : Values) (election : Nat) (ansName : Str) : Sys ×
 def stepTx (s : Sys) (i : Nat) (verdict : Verdict) (ansName : Str) (inj : List Inj) (last : Option Str) : Sys × Out :=
   let ans := (ansOfName (effName s ansName)).getD .unknown
   match planTx s i verdict ans with
-  | .error p => (s, { res := .panic p })
-  | .ok plan =>
+  | .panic p => (s, { res := .panic p })
+  | .fall => (s, {})
+  | .plan plan =>
     let (s1, reqs) := match plan.send with
       | some values => devSet s values s.cfg.aTerm ansName
       | none => (s, [])
